@@ -64,8 +64,8 @@ TRUSTED = [
 ]
 ASSUMPTIONS = ['the subgrader\'s check is a function of (answer, item) returning a grade in [0,1] or raising: an arbitrary oracle in every theorem',
                'answer credits lie in [0,1] (schema); the delimiter is non-empty',
-               'statements are of the form "if the model returns a grade"; that it does is proved (C07_returns) while n * D < sys.maxsize, '
-               'n the longer list, D a common denominator of the credits (termination of Munkres is C06\'s munkres_terminates)',
+               'statements about the grade are of the form "if the model returns a grade"; that the executable model always does when no '
+               'input error is due and the subgrader answers is proved without any bound (C07_returns, from C06\'s munkres_terminates)',
                'debug=False and no attempt-based credit on the observed graders (both act after check)']
 
 HEADER = ('From Coq Require Import ZArith QArith List Bool.\n'
@@ -351,7 +351,7 @@ def frame_term(fr):
         if 'res' in t:
             grades.append(t['res']['grade'])
     exact = all(is_small_dyadic(x) for x in grades)
-    scale_ok = all(Fraction(x).denominator < 2**60 for x in grades)
+    scale_ok = True      # the solver no longer starts its minimum search from sys.maxsize: any common denominator is faithful
     trace = [res_term(t, None if nested else c['delimiter']) for t in fr['trace']]
     out = res_term(fr['out'], None if nested else c['delimiter'])
     term = ('CFrame (mkFrame %s %s %s %s %s %s %s)' %
@@ -1405,11 +1405,12 @@ LEVEL_TEXT = ('Theorems for an arbitrary subgrader (item credits are an oracle),
               'partial_credit=False zeroes anything short of full credit; the answer-level message appears exactly when every padded '
               'pair earned credit (recursively for one level of nesting), which forces equal counts; the unordered grade is invariant '
               'under every permutation of the submitted items; length and blank-item errors are raised exactly when enabled and '
-              'applicable, length first; across alternative lists the best-scoring one is reported. split is proved to invert join. '
+              'applicable, length first, and otherwise the model always returns a grade (no bound on list lengths or credits); across alternative '
+              'lists the best-scoring one is reported. split is proved to invert join. '
               'The model is tied to listgrader.py by a regenerating translator for the straight-line helpers and by trace-level '
               'differential correspondence for the rest.')
-LEVEL_NOTE = ('Exact rational arithmetic; statements are of the form "if the model returns a grade", and it does while n*D < sys.maxsize '
-              '(proved); no axioms, no solver assumption; the float run of the implementation is tied to the exact model by correspondence '
+LEVEL_NOTE = ('Exact rational arithmetic; the model always returns a grade when no input error is due (proved, no bound on list lengths or '
+              'credits); no axioms, no solver assumption; the float run of the implementation is tied to the exact model by correspondence '
               '(grades within 1e-12, decision boundaries guard-banded); trusted: Coq kernel, translate/singlelist.py, harness/props/c07.py.')
 TECHNIQUE = ('Coq proof (lists, NoDup/Permutation, Q arithmetic; matching-extension and scaling arguments on top of the Munkres '
              'statement) + source-to-Gallina translator + vm_compute trace correspondence')
